@@ -102,6 +102,14 @@ def register_spec_fun(name, args, res, smtname):
     SPEC_FUNS[name] = (args, res, smtname)
 
 
+def _simp_seqof(t):
+    """(seqof (v_list X)) -> X, repeatedly (keeps E-matching patterns syntactically aligned)."""
+    from .terms import _balanced
+    while t.startswith("(seqof (v_list ") and t.endswith("))") and _balanced(t[7:-1]) and _balanced(t[15:-2]):
+        t = t[15:-2]
+    return t
+
+
 class SpecEval:
     """Compile a contract expression to an SMT term over an environment of symbolic values."""
 
@@ -403,6 +411,23 @@ class SpecEval:
                 d = self.ev(n.args[0])
                 j = self.ev(n.args[1])
                 return Val(f"(pval (seq.nth (ditems {asV(d)}) {asI(j)}))")
+            if f == "seen_has":
+                self.e.declare_fun("py_id", ["V"], "Int")
+                s = asV(self.ev(n.args[0]))
+                x = asV(self.ev(n.args[1]))
+                return mkB(f"(and (k_set {s}) (seq_has_pyeq (sitems {s}) (v_int (py_id {x})) 0))")
+            if f == "members_subset":
+                a = f"(seqof {asV(self.ev(n.args[0]))})"
+                b = f"(seqof {asV(self.ev(n.args[1]))})"
+                x = fresh_name("mx")
+                return mkB(f"(forall (({x} V)) (! (=> (ismem {_simp_seqof(a)} {x}) (ismem {_simp_seqof(b)} {x})) :pattern ((ismem {_simp_seqof(a)} {x})) :pattern ((ismem {_simp_seqof(b)} {x}))))")
+            if f == "prefix":
+                a = f"(seqof {asV(self.ev(n.args[0]))})"
+                return Val(f"(v_list (seq.extract {_simp_seqof(a)} 0 {asI(self.ev(n.args[1]))}))", kind="list")
+            if f == "member_is":
+                s = f"(seqof {asV(self.ev(n.args[0]))})"
+                x = asV(self.ev(n.args[1]))
+                return mkB(f"(ismem {_simp_seqof(s)} {x})")
             if f == "attr_absent":
                 base = self.ev_raw(n.args[0])
                 name = n.args[1].value
